@@ -154,7 +154,7 @@ def gen_case(rng, lossless=False):
 
 def run(ctx):
     rng = ctx.subrng("c10")
-    n = ctx.budget(150, 2500)
+    n = ctx.budget(300, 2500)
     for i in range(n):
         if ctx.time_left() < 0:
             break
